@@ -26,6 +26,12 @@ def install(it, ctx, S):
     assumptions=['T2 itertools.groupby at group level; single key field and single value field given by name; rectangular table',
                  'the aggregation function is an uninterpreted callback', 'stateless-body rule over the groups (engine meta-theorem)'])
 def itersimpleaggregate(h):
+    # the value field by name, and by index 0 (a FALSY but valid selection: `value=0` is the first column, not `no value`)
+    for vspec, tag in (('v', ''), (0, ' [value=0]')):
+        _itersimpleaggregate(h, vspec, tag)
+
+
+def _itersimpleaggregate(h, vspec, tag):
     def body(ctx):
         agg = UCall('aggregation')
 
@@ -34,16 +40,16 @@ def itersimpleaggregate(h):
             grows = view_seq(SCell(bi.grp_rows(e)))
             a = getattr(agg, 'last_args', [None])[0]
             ok_args = z3.BoolVal(False)
-            if isinstance(a, Seq):
+            if isinstance(a, Seq) and vindex:          # (no value index resolved: the value selection was ignored -> obligation fails)
                 q = smt.fresh_int('q')
                 vidx = smt.ival(as_v(vindex[0]))
                 ok_args = z3.And(a.len == grows.len,
                                  z3.ForAll([q], z3.Implies(z3.And(0 <= q, q < a.len),
                                                            z3.Select(a.arr, q) == z3.Select(smt.seq_arr(z3.Select(grows.arr, q)), vidx))))
-            ctx.oblige('itersimpleaggregate: the aggregation function receives exactly the values of this group\'s rows, in order', ok_args)
+            ctx.oblige('itersimpleaggregate: the aggregation function receives exactly the values of this group\'s rows, in order' + tag, ok_args)
             o = out_row(dout, 0)
             res = bi.ucall_terms('aggregation', [as_v(a)])[0] if isinstance(a, Seq) else None
-            ctx.oblige('itersimpleaggregate: one output row per group: (the group\'s key, aggregation(values))',
+            ctx.oblige('itersimpleaggregate: one output row per group: (the group\'s key, aggregation(values))' + tag,
                        z3.And(dout.len == 1, o.len == 2, z3.Select(o.arr, 0) == bi.grp_inner(e), z3.Select(o.arr, 1) == res) if res is not None else z3.BoolVal(False))
         it = h.interp(ctx, loops={(RD + 'itersimpleaggregate', 1): LoopSpec(delta=delta, label='groups')})
         S = sym_table(ctx, 'S', nmin=1)
@@ -58,20 +64,20 @@ def itersimpleaggregate(h):
 
         def spy(interp, args, kw, node):
             r = interp.call_closure(real_asindices, args, kw, node)
-            if args[1] == 'v':
+            if type(args[1]) is type(vspec) and args[1] == vspec:
                 vindex[:] = list(r.items)
             return r
         it.summaries['petl.util.base.asindices'] = spy
-        res = run_generator(it, fn, [S, 'k', agg, 'v', 'value'])
+        res = run_generator(it, fn, [S, 'k', agg, vspec, 'value'])
         if res.exc is not None:
             inloop = getattr(ctx, 'in_iteration', None)
-            ctx.oblige('itersimpleaggregate: only FieldSelectionError (before the groups) or the aggregation function\'s own exception (at its group) escapes',
+            ctx.oblige('itersimpleaggregate: only FieldSelectionError (before the groups) or the aggregation function\'s own exception (at its group) escapes' + tag,
                        z3.BoolVal((res.exc.kind == 'FieldSelectionError' and inloop is None) or (res.exc.kind == 'UserError' and inloop is not None)), res.exc.origin or '')
             return
         if getattr(ctx, 'after_loop', None):
             pre = ctx.pre_loop_out
             o = out_row(pre, 0)
-            ctx.oblige('itersimpleaggregate: header = (key field, output field), once; nothing after the last group',
+            ctx.oblige('itersimpleaggregate: header = (key field, output field), once; nothing after the last group' + tag,
                        z3.And(pre.len == 1, o.len == 2, res.out.len == 0))
     h.explore(body)
 
